@@ -74,3 +74,25 @@ Definition read_chunks (rd : bytes -> res (chunk * bytes)) (bs : bytes) : res (l
   Ok (chunks_iter rd (S (length r)) r).
 Definition chunks_stream := read_chunks read_chunk_stream.
 Definition chunks_slice := read_chunks read_chunk_slice.
+
+(* ---- a payload longer than the length field allows becomes several chunks -------------------------------
+   `data.chunks(u32::MAX as usize)` (lib/src/entry.rs into_chunks / chunks_write_in, lib/src/io.rs FlattenWriter,
+   and since fix 45407aa2 lib/src/chunk/write.rs ChunkStreamWriter::write): pieces of cmax elements, the last one
+   shorter, nothing for an empty slice.  The bound is an N and stays one: the list is walked with a counter, cmax is
+   never turned into a unary nat (u32::MAX as a nat would hang vm_compute and the extracted code). *)
+Definition CMAX : N := 4294967295.                       (* u32::MAX: the largest payload a chunk can declare *)
+(* the first min(k, |l|) elements and the rest *)
+Fixpoint splitN {A} (k : N) (l : list A) : list A * list A :=
+  match l with
+  | [] => ([], [])
+  | x :: r => if N.eqb k 0 then ([], l) else let (a, b) := splitN (N.pred k) r in (x :: a, b)
+  end.
+Fixpoint pieces_fuel {A} (fuel : nat) (cmax : N) (l : list A) : list (list A) :=
+  match fuel with
+  | O => []
+  | S f => match l with
+           | [] => []
+           | _ => let (a, b) := splitN cmax l in a :: pieces_fuel f cmax b
+           end
+  end.
+Definition pieces {A} (cmax : N) (l : list A) : list (list A) := pieces_fuel (length l) cmax l.
